@@ -354,7 +354,8 @@ class ActionLink(Action):
                             f"Link '{action.option_strings[0]}' ignored since attribute '{attr}' not found "
                             f"in source {source_object}."
                         )
-                        continue
+                        source_objects = []  # the link is ignored as a whole: compute_fn gets all its sources or is not called
+                        break
                     source_objects.append(getattr(source_object, attr))
             if not source_objects:
                 continue
